@@ -109,6 +109,32 @@ def canon_eq(a: str, b: str, op="==") -> str:
     return "%s %s %s" % (x, op, y)
 
 
+def _items_max(call):
+    """D when call is max/min(D.items(), key=itemgetter(1)) or key=lambda kv: kv[1]; else None"""
+    if not (isinstance(call, ast.Call) and isinstance(call.func, ast.Name) and call.func.id in ("max", "min") and
+            len(call.args) == 1 and len(call.keywords) == 1 and call.keywords[0].arg == "key"):
+        return None
+    a = call.args[0]
+    if not (isinstance(a, ast.Call) and isinstance(a.func, ast.Attribute) and a.func.attr == "items" and
+            not a.args and not a.keywords and _simple_ref(a.func.value)):
+        return None
+    k = call.keywords[0].value
+    ks = ast.unparse(k)
+    ok = ks in ("itemgetter(1)", "operator.itemgetter(1)")
+    if isinstance(k, ast.Lambda) and len(k.args.args) == 1 and isinstance(k.body, ast.Subscript) and \
+            isinstance(k.body.value, ast.Name) and k.body.value.id == k.args.args[0].arg and \
+            isinstance(k.body.slice, ast.Constant) and k.body.slice.value == 1:
+        ok = True
+    return a.func.value if ok else None
+
+
+def _max_by_get(d, fname):
+    import copy as _copy
+    return ast.fix_missing_locations(ast.Call(
+        func=ast.Name(id=fname, ctx=ast.Load()), args=[_copy.deepcopy(d)],
+        keywords=[ast.keyword(arg="key", value=ast.Attribute(value=_copy.deepcopy(d), attr="get", ctx=ast.Load()))]))
+
+
 def _simple_ref(e):
     while isinstance(e, ast.Attribute):
         e = e.value
@@ -138,10 +164,39 @@ class _Canon(ast.NodeTransformer):
         if node.orelse and isinstance(node.test, ast.UnaryOp) and isinstance(node.test.op, ast.Not):
             node.test = node.test.operand
             node.body, node.orelse = node.orelse, node.body
+        # if x is None: A else: B   ->   if x is not None: B else: A
+        t = node.test
+        if node.orelse and isinstance(t, ast.Compare) and len(t.ops) == 1 and isinstance(t.ops[0], ast.Is) and \
+                isinstance(t.comparators[0], ast.Constant) and t.comparators[0].value is None:
+            t.ops = [ast.IsNot()]
+            node.body, node.orelse = node.orelse, node.body
         return node
 
     def visit_Assign(self, node):
         self.generic_visit(node)
+        # k, _ = max(d.items(), key=itemgetter(1))   ->   k = max(d, key=d.get)      (when _ is a throw-away name)
+        if len(node.targets) == 1 and isinstance(node.targets[0], ast.Tuple) and len(node.targets[0].elts) == 2 and \
+                isinstance(node.targets[0].elts[1], ast.Name) and node.targets[0].elts[1].id.startswith("_") and \
+                _items_max(node.value) is not None:
+            new = ast.Assign(targets=[node.targets[0].elts[0]], value=_max_by_get(_items_max(node.value),
+                                                                                  node.value.func.id))
+            return ast.fix_missing_locations(ast.copy_location(new, node))
+        # x = dict(p, k=v)   ->   x = dict(p); x['k'] = v
+        if len(node.targets) == 1 and isinstance(node.targets[0], (ast.Name, ast.Attribute)) and \
+                isinstance(node.value, ast.Call) and isinstance(node.value.func, ast.Name) and \
+                node.value.func.id == "dict" and len(node.value.args) == 1 and node.value.keywords and \
+                all(k.arg is not None for k in node.value.keywords) and _simple_ref(node.targets[0]):
+            import copy as _copy
+            t = node.targets[0]
+            first = ast.Assign(targets=[t], value=ast.Call(func=node.value.func, args=node.value.args, keywords=[]))
+            out = [ast.fix_missing_locations(ast.copy_location(first, node))]
+            for k in node.value.keywords:
+                tl = _copy.deepcopy(t)
+                tl.ctx = ast.Load()
+                st = ast.Assign(targets=[ast.Subscript(value=tl, slice=ast.Constant(value=k.arg), ctx=ast.Store())],
+                                value=k.value)
+                out.append(ast.fix_missing_locations(ast.copy_location(st, node)))
+            return out
         # a, b = (x, y)  ->  a = x; b = y     (when no value reads a target and, for non-local targets, the values
         # are pure: the order of evaluations and stores is then immaterial)
         if len(node.targets) == 1 and isinstance(node.targets[0], ast.Tuple) and isinstance(node.value, ast.Tuple) \
@@ -202,8 +257,31 @@ class _Canon(ast.NodeTransformer):
                 return loop
         return node
 
+    def visit_Subscript(self, node):
+        self.generic_visit(node)
+        # max(d.items(), key=itemgetter(1))[0]  ->  max(d, key=d.get)       (the first key with the largest value)
+        if isinstance(node.slice, ast.Constant) and node.slice.value == 0 and isinstance(node.ctx, ast.Load):
+            d = _items_max(node.value)
+            if d is not None:
+                return ast.copy_location(_max_by_get(d, node.value.func.id), node)
+        return node
+
     def visit_Call(self, node):
         self.generic_visit(node)
+        # np.concatenate([a, b], axis=0)  ->  np.concatenate((a, b))
+        if isinstance(node.func, ast.Attribute) and node.func.attr == "concatenate" and node.args and \
+                isinstance(node.args[0], (ast.List, ast.Tuple)) and len(node.args) == 1:
+            kws = [k for k in node.keywords if not (k.arg == "axis" and isinstance(k.value, ast.Constant) and
+                                                    k.value.value == 0)]
+            node.keywords = kws
+            if isinstance(node.args[0], ast.List):
+                node.args[0] = ast.copy_location(ast.Tuple(elts=node.args[0].elts, ctx=ast.Load()), node.args[0])
+        # min / max / sorted(xs, key=d.__getitem__)  ->  key=d.get   (the elements are keys of d in either spelling)
+        if isinstance(node.func, ast.Name) and node.func.id in ("min", "max", "sorted"):
+            for k in node.keywords:
+                if k.arg == "key" and isinstance(k.value, ast.Attribute) and k.value.attr == "__getitem__":
+                    k.value = ast.copy_location(ast.Attribute(value=k.value.value, attr="get", ctx=ast.Load()),
+                                                k.value)
         # map(f, xs) -> (f(x) for x in xs) ;  list(<generator expression>) -> [ ... ]
         if isinstance(node.func, ast.Name) and node.func.id == "map" and len(node.args) == 2 and \
                 not node.keywords and isinstance(node.args[0], (ast.Name, ast.Attribute)):
@@ -254,6 +332,26 @@ class _Canon(ast.NodeTransformer):
                     for st in node.body:
                         out.append(_Subst({x: e}).visit(_copy.deepcopy(st)))
                 return out
+        return node
+
+    def visit_Return(self, node):
+        self.generic_visit(node)
+        # return a if c else b   ->   if c: return a else: return b
+        if isinstance(node.value, ast.IfExp):
+            v = node.value
+            new = ast.If(test=v.test, body=[ast.copy_location(ast.Return(value=v.body), node)],
+                         orelse=[ast.copy_location(ast.Return(value=v.orelse), node)])
+            return self.visit_If(ast.fix_missing_locations(ast.copy_location(new, node)))
+        return node
+
+    def visit_UnaryOp(self, node):
+        self.generic_visit(node)
+        # not (a or b) -> not a and not b ;  not (a and b) -> not a or not b
+        if isinstance(node.op, ast.Not) and isinstance(node.operand, ast.BoolOp):
+            inner = node.operand
+            vals = [ast.UnaryOp(op=ast.Not(), operand=v) for v in inner.values]
+            new = ast.BoolOp(op=ast.And() if isinstance(inner.op, ast.Or) else ast.Or(), values=vals)
+            return ast.fix_missing_locations(ast.copy_location(new, node))
         return node
 
     def visit_IfExp(self, node):
@@ -388,7 +486,44 @@ def _self_field_of(target):
     return fld if isinstance(b, ast.Name) and b.id == "self" else None
 
 
-def _is_barrier(st, reads_self, expr=None):
+RAISING_CALLS = {"concatenate", "append", "dot", "matmul", "inv", "solve", "pinv", "vstack", "hstack", "stack",
+                 "column_stack", "reshape", "cdist", "transform", "predict", "apply", "multivariate_normal",
+                 "cholesky", "astype", "asarray", "array", "fromiter", "argpartition"}
+
+
+def _may_raise(e):
+    """can evaluating the (otherwise pure) expression fail on ill-shaped input? Such an evaluation must keep its
+    place relative to the stores into the bandit: where it stands decides what state an exception leaves behind"""
+    for n in ast.walk(e):
+        if isinstance(n, ast.Call):
+            f = n.func
+            name = f.attr if isinstance(f, ast.Attribute) else (f.id if isinstance(f, ast.Name) else None)
+            if name in RAISING_CALLS:
+                return True
+    return False
+
+
+def _stores_state(st):
+    for n in ast.walk(st):
+        tgt = None
+        if isinstance(n, (ast.Attribute, ast.Subscript)) and isinstance(n.ctx, (ast.Store, ast.Del)):
+            tgt = n
+        elif isinstance(n, ast.AugAssign) and not isinstance(n.target, ast.Name):
+            tgt = n.target
+        if tgt is not None and _self_field_of(tgt) is not None:
+            return True
+    return False
+
+
+def _stable_self_path(e):
+    """self.F, self.F[k], self.F[k].g ... with names / constants as keys"""
+    if not isinstance(e, (ast.Attribute, ast.Subscript)) or _self_field_of(e) is None:
+        return False
+    return not any(isinstance(n, (ast.Call, ast.Slice, ast.BinOp, ast.Lambda, ast.IfExp, ast.Compare, ast.BoolOp))
+                   for n in ast.walk(e))
+
+
+def _is_barrier(st, reads_self, expr=None, alias=None):
     """can executing st change what a pure expression (reading self.* iff reads_self) evaluates to? With `expr`
     given, a store into field X of self only matters when expr reads an attribute called X (two differently named
     fields of one object are taken not to alias)."""
@@ -400,10 +535,19 @@ def _is_barrier(st, reads_self, expr=None):
         elif isinstance(n, ast.AugAssign) and not isinstance(n.target, ast.Name):
             tgt = n.target
         if tgt is not None:
+            root = tgt
+            while isinstance(root, (ast.Attribute, ast.Subscript)):
+                root = root.value
+            if alias is not None and isinstance(root, ast.Name) and root.id == alias:
+                continue        # written through the alias itself: the entry's content, not which entry it is
             fld = _self_field_of(tgt)
             if fields is None or fld is None or fld in fields:
                 return True
         if isinstance(n, ast.Call) and not _pure_expr(n):
+            if alias is not None and isinstance(n.func, ast.Attribute) and isinstance(n.func.value, ast.Name) and \
+                    n.func.value.id == alias and n.func.attr in MUTATING_METHODS and \
+                    n.func.attr not in ("fit", "partial_fit") and all(_pure_expr(a) for a in n.args):
+                continue        # x.append(v) on the alias
             return True
     return False
 
@@ -676,12 +820,29 @@ def _inline_temporaries(fn):
                     if not (isinstance(st, ast.Assign) and len(st.targets) == 1 and isinstance(st.targets[0], ast.Name)):
                         continue
                     t = st.targets[0].id
-                    if t in params or t in mutated or len(stores.get(t, [])) != 1 or not loads.get(t):
+                    if t in params or len(stores.get(t, [])) != 1 or not loads.get(t):
                         continue
                     e = st.value
+                    # a local that is written through (x[k] = v, x.append(v)) can only be a name for an entry of a
+                    # field of self: `x = self.F[k]` - the entry is then written under its own name
+                    alias = None
+                    if t in mutated:
+                        if not _stable_self_path(e):
+                            continue
+                        alias = t
                     if isinstance(e, (ast.List, ast.Dict, ast.Set, ast.ListComp, ast.DictComp, ast.SetComp,
                                       ast.GeneratorExp, ast.Constant)) and not isinstance(e, ast.Constant):
-                        continue
+                        # a new container is built once: only `x = [...]` directly followed by `return x` / `y = x`
+                        nxt_ = blk[i + 1] if i + 1 < len(blk) else None
+                        moved = isinstance(nxt_, (ast.Return, ast.Assign)) and isinstance(nxt_.value, ast.Name) and \
+                            nxt_.value.id == t and len(loads.get(t, [])) == 1 and not isinstance(e, ast.GeneratorExp)
+                        if not moved or alias is not None:
+                            continue
+                        import copy as _copy2
+                        nxt_.value = e
+                        blk.pop(i)
+                        changed = True
+                        break
                     if not _pure_expr(e):
                         continue
                     names = {x.id for x in ast.walk(e) if isinstance(x, ast.Name)}
@@ -699,14 +860,18 @@ def _inline_temporaries(fn):
                         continue
                     last = max((k for k, s2 in enumerate(rest) if any(isinstance(x, ast.Name) and x.id == t
                                                                       for x in ast.walk(s2))), default=-1)
-                    if reads_self and any(_is_barrier(s2, True, e) for s2 in rest[:last]):
+                    if reads_self and any(_is_barrier(s2, True, e, alias) for s2 in rest[:last]):
                         continue
+                    if alias is not None and any(_is_barrier(s2, True, e, alias) for s2 in rest[:last + 1]):
+                        continue
+                    if _may_raise(e) and any(_stores_state(s2) for s2 in rest[:last]):
+                        continue        # a failing evaluation must not move behind a store into the bandit
                     if reads_self and last >= 0:
                         # within the last using statement the use must not follow a barrier either: accept simple
                         # statements, and compound ones only if they contain no barrier at all
                         s_last = rest[last]
                         if isinstance(s_last, (ast.If, ast.For, ast.While, ast.With, ast.Try)) and \
-                                _is_barrier(s_last, True, e):
+                                _is_barrier(s_last, True, e, alias):
                             continue
                     import copy as _copy
                     for u in uses_after:
@@ -986,6 +1151,37 @@ def _inline_in_function(fn, helpers):
                     out.extend(pro + body)
                     changed = True
                     continue
+            # f(*self._h(x)) where _h is a single `return (a, b, c)`: the elements are the arguments
+            for c in [n for n in ast.walk(st) if isinstance(n, ast.Call)]:
+                new_args = []
+                touched = False
+                for a in c.args:
+                    hname = _is_helper_call(a.value, helpers) if isinstance(a, ast.Starred) else None
+                    if hname is not None:
+                        mod, cls, hfn, is_static = helpers[hname]
+                        hb = _helper_body(hfn)
+                        params = [x.arg for x in hfn.args.args][0 if is_static else 1:]
+                        call = a.value
+                        if len(hb) == 1 and isinstance(hb[0], ast.Return) and isinstance(hb[0].value, ast.Tuple) and \
+                                hfn is not fn and not call.keywords and len(call.args) == len(params) and \
+                                not any(isinstance(x, ast.Starred) for x in call.args):
+                            import copy as _copy
+                            uses = {p: sum(1 for x in ast.walk(hb[0].value) if isinstance(x, ast.Name) and x.id == p)
+                                    for p in params}
+                            if all(uses[p] == 1 or _pure_expr(x) for p, x in zip(params, call.args)):
+                                tup = _Subst(dict(zip(params, call.args))).visit(_copy.deepcopy(hb[0].value))
+                                for x in ast.walk(tup):
+                                    if hasattr(x, "lineno"):
+                                        x.lineno, x.col_offset = c.lineno, c.col_offset
+                                        x.end_lineno = getattr(c, "end_lineno", c.lineno)
+                                        x.end_col_offset = getattr(c, "end_col_offset", 0)
+                                new_args.extend(tup.elts)
+                                touched = True
+                                continue
+                    new_args.append(a)
+                if touched:
+                    c.args = new_args
+                    changed = True
             # helper calls nested in expressions: single `return <expr>` helpers only
             for node in list(ast.walk(st)):
                 name = _is_helper_call(node, helpers)
@@ -1058,9 +1254,17 @@ def _loops_to_comprehensions(block):
                 isinstance(nxt, ast.For) and not nxt.orelse:
             name = st.targets[0].id
             e = _append_tree(nxt.body, name)
+            flt = None
+            if e is None and len(nxt.body) == 1 and isinstance(nxt.body[0], ast.If) and not nxt.body[0].orelse:
+                # for T in IT: if C: L.append(E)   ->   [E for T in IT if C]
+                e = _append_tree(nxt.body[0].body, name)
+                flt = nxt.body[0].test if e is not None else None
+                if flt is not None and any(isinstance(n, ast.Name) and n.id == name for n in ast.walk(flt)):
+                    e = None
             if e is not None and not any(isinstance(n, ast.Name) and n.id == name
                                          for x in (e, nxt.iter, nxt.target) for n in ast.walk(x)):
-                comp = ast.ListComp(elt=e, generators=[ast.comprehension(target=nxt.target, iter=nxt.iter, ifs=[],
+                comp = ast.ListComp(elt=e, generators=[ast.comprehension(target=nxt.target, iter=nxt.iter,
+                                                                         ifs=[flt] if flt is not None else [],
                                                                          is_async=0)])
                 new = ast.Assign(targets=[ast.Name(id=name, ctx=ast.Store())], value=comp, lineno=nxt.lineno)
                 out.append(ast.fix_missing_locations(ast.copy_location(new, nxt)))
@@ -1071,24 +1275,169 @@ def _loops_to_comprehensions(block):
     return out
 
 
+def _raise_guards_to_checks(tree):
+    """`if c: raise E` / `if not c: raise E` (no else)  ->  check_false(c, E) / check_true(c, E) in modules that
+    import those two helpers (utils.check_true / check_false raise their second argument when the test fails)"""
+    have = set()
+    for n in tree.body:
+        if isinstance(n, ast.ImportFrom):
+            have |= {a.asname or a.name for a in n.names if a.name in ("check_true", "check_false")}
+    if not {"check_true", "check_false"} <= have:
+        return
+
+    class R(ast.NodeTransformer):
+        def visit_If(self, node):
+            self.generic_visit(node)
+            if not node.orelse and len(node.body) == 1 and isinstance(node.body[0], ast.Raise) and \
+                    node.body[0].exc is not None and node.body[0].cause is None and \
+                    isinstance(node.body[0].exc, ast.Call) and _pure_expr(
+                        ast.Tuple(elts=list(node.body[0].exc.args), ctx=ast.Load())):
+                t, name = node.test, "check_false"
+                if isinstance(t, ast.UnaryOp) and isinstance(t.op, ast.Not):
+                    t, name = t.operand, "check_true"
+                call = ast.Call(func=ast.Name(id=name, ctx=ast.Load()), args=[t, node.body[0].exc], keywords=[])
+                return ast.fix_missing_locations(ast.copy_location(ast.Expr(value=call), node))
+            return node
+    R().visit(tree)
+
+
+def _drop_trailing_returns(fn):
+    """a bare `return` that ends a function (directly, or as the last statement of the branches of its last `if`)
+    does nothing"""
+    if any(isinstance(n, ast.Return) and n.value is not None for n in ast.walk(fn)) or \
+            any(isinstance(n, (ast.Yield, ast.YieldFrom)) for n in ast.walk(fn)):
+        return
+
+    def trim(block):
+        while block and isinstance(block[-1], ast.Return) and block[-1].value is None:
+            block.pop()
+        if block and isinstance(block[-1], ast.If):
+            last = block[-1]
+            trim(last.body)
+            trim(last.orelse)
+            if not last.body:
+                if last.orelse:
+                    last.test = ast.UnaryOp(op=ast.Not(), operand=last.test)
+                    last.body, last.orelse = last.orelse, []
+                else:
+                    last.body = [ast.copy_location(ast.Pass(), last)]
+        return block
+    trim(fn.body)
+    if not fn.body:
+        fn.body = [ast.Pass()]
+
+
+def _adjacent_single_use(fn):
+    """`x = E` directly followed by the one statement that reads x, once, where nothing with an effect is evaluated
+    between E and the read: the statement gets E itself (E may be any expression: it is still evaluated once, at
+    the same point of the effect order)."""
+    import copy as _copy
+    for n in ast.walk(fn):
+        if isinstance(n, (ast.FunctionDef, ast.AsyncFunctionDef, ast.Lambda, ast.ClassDef)) and n is not fn:
+            return
+    a = fn.args
+    params = {x.arg for x in a.posonlyargs + a.args + a.kwonlyargs}
+    changed = True
+    while changed:
+        changed = False
+        stores, loads = {}, {}
+        for n in ast.walk(fn):
+            if isinstance(n, ast.Name):
+                (stores if isinstance(n.ctx, (ast.Store, ast.Del)) else loads).setdefault(n.id, []).append(n)
+        todo = [fn]
+        while todo and not changed:
+            node = todo.pop()
+            for fld in ("body", "orelse", "finalbody"):
+                blk = getattr(node, fld, None)
+                if not (isinstance(blk, list) and blk and isinstance(blk[0], ast.stmt)):
+                    continue
+                todo.extend(blk)
+                for i in range(len(blk) - 1):
+                    st, nxt = blk[i], blk[i + 1]
+                    if not (isinstance(st, ast.Assign) and len(st.targets) == 1 and
+                            isinstance(st.targets[0], ast.Name)):
+                        continue
+                    t = st.targets[0].id
+                    if t in params or len(stores.get(t, [])) != 1 or len(loads.get(t, [])) != 1:
+                        continue
+                    if _pure_expr(st.value):
+                        continue            # the temporaries pass deals with those
+                    if not isinstance(nxt, (ast.Assign, ast.Return, ast.Expr, ast.AugAssign)) or nxt.value is None:
+                        continue
+                    use = loads[t][0]
+                    if not any(x is use for x in ast.walk(nxt.value)):
+                        continue
+                    if isinstance(nxt, ast.Assign) and any(isinstance(x, ast.Call) for tg in nxt.targets
+                                                           for x in ast.walk(tg)):
+                        continue
+                    if isinstance(nxt, ast.AugAssign):
+                        continue
+                    # every impure call of the statement must enclose the read (its arguments are evaluated first),
+                    # and the read must be the first thing evaluated among the impure parts: no impure call elsewhere
+                    anc = set()
+                    def mark(n, path):
+                        if n is use:
+                            anc.update(id(p) for p in path)
+                            return True
+                        for ch in ast.iter_child_nodes(n):
+                            if mark(ch, path + [n]):
+                                return True
+                        return False
+                    mark(nxt.value, [])
+                    bad = [c for c in ast.walk(nxt.value) if isinstance(c, ast.Call) and id(c) not in anc and
+                           not _pure_expr(ast.Call(func=c.func, args=[], keywords=[]))]
+                    bad += [c for c in ast.walk(nxt.value) if isinstance(c, (ast.Lambda, ast.ListComp, ast.SetComp,
+                                                                             ast.DictComp, ast.GeneratorExp))
+                            and any(x is use for x in ast.walk(c))]
+                    if bad:
+                        continue
+                    new = _copy.deepcopy(st.value)
+                    use.__class__ = new.__class__
+                    use.__dict__.clear()
+                    use.__dict__.update(new.__dict__)
+                    blk.pop(i)
+                    changed = True
+                    break
+                if changed:
+                    break
+    ast.fix_missing_locations(fn)
+
+
+def _local_round(tree):
+    _Canon().visit(tree)
+    tree.body = _loops_to_comprehensions(tree.body)
+    ast.fix_missing_locations(tree)
+    for n in ast.walk(tree):
+        if isinstance(n, (ast.FunctionDef, ast.AsyncFunctionDef)):
+            _forward_stores(n)
+            _drop_dead_assignments(n)
+            _inline_temporaries(n)
+            _adjacent_single_use(n)
+    _Canon().visit(tree)
+    tree.body = _nest_block(tree.body, False)
+    for n in ast.walk(tree):
+        if isinstance(n, (ast.FunctionDef, ast.AsyncFunctionDef)):
+            _drop_trailing_returns(n)
+    _Canon().visit(tree)
+    ast.fix_missing_locations(tree)
+
+
 def canonicalise_program(trees):
-    """whole-program part of the canonical form: helper inlining, temporaries, early exits"""
-    if os.environ.get("MABSTAT_NO_INLINE") != "1":
+    """whole-program part of the canonical form: temporaries, early exits, helper inlining (the later steps uncover
+    forms for the earlier ones, so the local steps run before and twice after the helpers are inlined)"""
+    if os.environ.get("MABSTAT_NO_INLINE") == "1":
         for tree in trees.values():
-            tree.body = _nest_block(tree.body, False)       # early returns of helpers become leaf returns
-        inline_helpers(trees)
-    for tree in trees.values():
-        if os.environ.get("MABSTAT_NO_INLINE") != "1":
             _Canon().visit(tree)
-            tree.body = _loops_to_comprehensions(tree.body)
+            tree.body = _nest_block(tree.body, False)
             ast.fix_missing_locations(tree)
-            for n in ast.walk(tree):
-                if isinstance(n, (ast.FunctionDef, ast.AsyncFunctionDef)):
-                    _forward_stores(n)
-                    _drop_dead_assignments(n)
-                    _inline_temporaries(n)
-        _Canon().visit(tree)
-        tree.body = _nest_block(tree.body, False)
+        return
+    for tree in trees.values():
+        _local_round(tree)          # helpers get their own single-return form first
+    inline_helpers(trees)
+    for tree in trees.values():
+        for _round in range(2):
+            _local_round(tree)
+        _raise_guards_to_checks(tree)
         ast.fix_missing_locations(tree)
 
 
